@@ -111,8 +111,12 @@ def binding(chk, only_sections=None):
             for (mod, cls, attr), (sec, key, cast) in BINDING.items():
                 if only_sections and sec not in only_sections:
                     continue
-                n += 1
                 v = real.get(f"{mod}.{cls}.{attr}")
+                if isinstance(v, str) and v.startswith("ERR "):
+                    # the constant does not exist under this name any more (renamed / restructured): nothing to compare
+                    chk.note(f"configuration binding: {cls}.{attr} not found ({v[:80]})")
+                    continue
+                n += 1
                 exp = cast(c[sec][key])
                 if v != exp:
                     # which key does it hold instead?
